@@ -226,7 +226,7 @@ func (v *Verifier) lock(s *State, mu *Value, write bool, pos token.Pos) {
 	}
 	// protocol assumptions of the function under verification about guarded state (e.g. "this done func still owns one
 	// holder unit"): assumed right after the first guarded Lock, and listed
-	if s.frame != nil && s.frame.fn == v.top && v.topC != nil && len(tc.Guards[field]) > 0 && v.lockSnap[key] == nil {
+	if s.frame != nil && s.frame.fn == v.top && v.topC != nil && len(tc.Guards[field]) > 0 && s.lockSnap == nil {
 		for _, c := range v.topC.AssumeLocked {
 			ev := v.newEval(s, v.top, v.topCells, evalLoop)
 			s.assume(ev.boolExpr(c.Expr))
@@ -237,11 +237,8 @@ func (v *Verifier) lock(s *State, mu *Value, write bool, pos token.Pos) {
 	if len(tc.Guards[field]) > 0 {
 		s.ghost["$didlock"] = scalar(types.Typ[types.Bool], True)
 	}
-	if s.frame != nil && s.frame.fn == v.top && v.lockSnap[key] == nil && len(tc.Guards[field]) > 0 {
-		v.lockSnap[key] = s.clone()
-		if v.firstLockSnap == nil {
-			v.firstLockSnap = v.lockSnap[key]
-		}
+	if s.frame != nil && s.frame.fn == v.top && s.lockSnap == nil && len(tc.Guards[field]) > 0 {
+		s.lockSnap = s.clone()
 	}
 }
 
